@@ -732,35 +732,24 @@ func (p *Program) pfLoopChecksAll(fn *ssa.Function, spec pfLoopSpec) (problems, 
 	if L == nil {
 		return []string{"the per-element checker call at " + p.IPos(call) + " is not inside a loop"}, nil, nil
 	}
-	iff, ok := L.Head.Instrs[len(L.Head.Instrs)-1].(*ssa.If)
+	cl, why := p.pfCountingLoop(L)
+	if cl == nil {
+		return nil, []string{why}, nil
+	}
+	idx := cl.Idx
+	lc, ok := cl.Bound.(*ssa.Call)
 	if !ok {
-		return nil, []string{"loop header does not end in a condition"}, nil
-	}
-	cond, ok := iff.Cond.(*ssa.BinOp)
-	if !ok || (cond.Op != token.LSS && cond.Op != token.GTR) {
-		return nil, []string{"loop condition is not `index < len(collection)`: " + p.describe(iff.Cond)}, nil
-	}
-	idx, bound := cond.X, cond.Y
-	if cond.Op == token.GTR {
-		idx, bound = bound, idx
-	}
-	lc, ok := bound.(*ssa.Call)
-	if !ok {
-		return nil, []string{"loop bound is not a len() call: " + p.describe(bound)}, nil
+		return nil, []string{"loop bound is not a len() call: " + p.describe(cl.Bound)}, nil
 	}
 	if b, isB := lc.Call.Value.(*ssa.Builtin); !isB || b.Name() != "len" {
-		return nil, []string{"loop bound is not a len() call: " + p.describe(bound)}, nil
+		return nil, []string{"loop bound is not a len() call: " + p.describe(cl.Bound)}, nil
 	}
 	if !p.pfDerives(lc.Call.Args[0], spec.Collection) {
 		problems = append(problems, "the loop is bounded by len("+p.describe(lc.Call.Args[0])+"), which is not the length of "+spec.CollName)
 	} else {
-		notes = append(notes, "loop over "+spec.CollName)
+		notes = append(notes, "loop over "+spec.CollName+cl.Form())
 	}
-	// body edge must be the true edge of the header
-	if !L.Body[L.Head.Succs[0]] || L.Body[L.Head.Succs[1]] {
-		return nil, []string{"loop header edges are not (body, exit)"}, nil
-	}
-	exit := L.Head.Succs[1]
+	exit := cl.Exit
 	// called on every iteration
 	for _, t := range L.Tails {
 		if !call.Block().Dominates(t) {
@@ -808,7 +797,7 @@ func (p *Program) pfLoopChecksAll(fn *ssa.Function, spec pfLoopSpec) (problems, 
 		problems = append(problems, "the violations returned by the per-element check are not appended to the result on every iteration")
 	}
 	// nil-error returns only after the loop is exhausted
-	reach := pfReachable(fn, func(from, to *ssa.BasicBlock) bool { return from == L.Head && to == exit }, nil)
+	reach := pfReachable(fn, cl.exitEdge, nil)
 	targets := 0
 	for _, rc := range p.returnCases(fn) {
 		if len(rc.Results) < 2 {
@@ -825,7 +814,7 @@ func (p *Program) pfLoopChecksAll(fn *ssa.Function, spec pfLoopSpec) (problems, 
 		reachable := false
 		if rc.Pred != nil {
 			_, okp := reach[rc.Pred]
-			reachable = okp && !(rc.Pred == L.Head && rb == exit)
+			reachable = okp && !cl.exitEdge(rc.Pred, rb)
 		} else {
 			_, reachable = reach[rb]
 		}
@@ -840,6 +829,12 @@ func (p *Program) pfLoopChecksAll(fn *ssa.Function, spec pfLoopSpec) (problems, 
 					has = true
 				}
 			}
+			// bottom-tested loop, return split on the edge guard → exit (the collection is empty, no
+			// iteration ran): the accumulator still has its initial value, which is what a top-tested
+			// loop returns through its head phi on that path
+			if !has && cl.Rot != nil && rc.Pred != nil && rb == exit && rc.Pred != cl.Rot.Latch && cl.exitEdge(rc.Pred, rb) {
+				has = p.pfInitialOfCarried(L, rc.Pred, rc.Results[0], app)
+			}
 			if !has {
 				problems = append(problems, "the error-free return at "+p.IPos(rc.Ret)+" does not return the accumulated violations")
 			}
@@ -849,6 +844,173 @@ func (p *Program) pfLoopChecksAll(fn *ssa.Function, spec pfLoopSpec) (problems, 
 		problems = append(problems, "no error-free return found")
 	}
 	return problems, unknown, notes
+}
+
+// ---------------------------------------------------------------------------------------------
+// Counting loops over every index 0 … bound-1, in either form go/ssa gives them.
+
+// pfCountLoop describes a loop that visits the indexes 0, 1, … in steps of one while index < Bound.
+//
+//	top-tested    (`for i := range s`, `for _, x := range s`, `for i := 0; i < n; i++`):
+//	              head: if idx < bound goto body else Exit
+//	bottom-tested (`for i := range n`, see rotatedLoop in helpers_guards.go):
+//	              guard: if 0 < bound goto head else Exit … latch: if idx+1 < bound goto head else Exit
+//
+// The loop is exhausted (every index below Bound had its iteration) exactly when control takes one of
+// the exitEdge edges: head → Exit, or latch → Exit / guard → Exit.
+type pfCountLoop struct {
+	L     *Loop
+	Idx   ssa.Value       // the index of the running iteration as the body sees it
+	Bound ssa.Value       // the loop runs while index < Bound
+	Exit  *ssa.BasicBlock // entered when the loop condition is false
+	Rot   *loopRotation   // non-nil: bottom-tested
+}
+
+// exitEdge: from → to is a loop-condition-false edge.
+func (cl *pfCountLoop) exitEdge(from, to *ssa.BasicBlock) bool {
+	if to != cl.Exit {
+		return false
+	}
+	if cl.Rot != nil {
+		return rotExitEdge(cl.Rot, from)
+	}
+	return from == cl.L.Head
+}
+
+func (cl *pfCountLoop) Form() string {
+	if cl.Rot != nil {
+		return " (bottom-tested counting loop)"
+	}
+	return ""
+}
+
+// pfLessThan reads `cond` taken with polarity pol as a strict comparison small < big.
+func pfLessThan(cond ssa.Value, pol bool) (small, big ssa.Value, ok bool) {
+	bin, isBin := cond.(*ssa.BinOp)
+	if !isBin {
+		return nil, nil, false
+	}
+	op := bin.Op
+	if !pol {
+		switch op {
+		case token.GEQ:
+			op = token.LSS
+		case token.LEQ:
+			op = token.GTR
+		default:
+			return nil, nil, false
+		}
+	}
+	switch op {
+	case token.LSS:
+		return bin.X, bin.Y, true
+	case token.GTR:
+		return bin.Y, bin.X, true
+	}
+	return nil, nil, false
+}
+
+// pfCountingLoop recognises L as a counting loop from index 0 upwards in steps of one; why says what
+// was not recognised otherwise.
+func (p *Program) pfCountingLoop(L *Loop) (cl *pfCountLoop, why string) {
+	if len(L.Head.Instrs) == 0 {
+		return nil, "empty loop header"
+	}
+	// top-tested: the head decides
+	if iff, ok := L.Head.Instrs[len(L.Head.Instrs)-1].(*ssa.If); ok && len(L.Head.Succs) == 2 {
+		why = "loop condition is not `index < len(collection)`: " + p.describe(iff.Cond)
+		var idx, bound ssa.Value
+		var exit *ssa.BasicBlock
+		switch {
+		case L.Body[L.Head.Succs[0]] && !L.Body[L.Head.Succs[1]]:
+			if s, b, ok := pfLessThan(iff.Cond, true); ok {
+				idx, bound, exit = s, b, L.Head.Succs[1]
+			}
+		case L.Body[L.Head.Succs[1]] && !L.Body[L.Head.Succs[0]]:
+			if s, b, ok := pfLessThan(iff.Cond, false); ok {
+				idx, bound, exit = s, b, L.Head.Succs[0]
+			}
+		default:
+			why = "loop header edges are not (body, exit)"
+		}
+		if idx != nil {
+			if dir, ok := p.pfIndexDirection(idx, nil, L); !ok || dir != 1 {
+				return nil, "the loop index " + p.describe(idx) + " is not a counter that starts at 0 and is incremented by one per iteration"
+			}
+			return &pfCountLoop{L: L, Idx: idx, Bound: bound, Exit: exit}, ""
+		}
+	} else {
+		why = "loop header does not end in a condition"
+	}
+	// bottom-tested: the latch decides, a guard in front of the loop decides for the first iteration
+	rot := rotatedLoop(L)
+	if rot == nil {
+		return nil, why
+	}
+	iff := rot.Latch.Instrs[len(rot.Latch.Instrs)-1].(*ssa.If)
+	next, bound, ok := pfLessThan(iff.Cond, rot.Latch.Succs[0] == L.Head)
+	if !ok {
+		return nil, "loop condition is not `index < len(collection)`: " + p.describe(iff.Cond)
+	}
+	if base, off, ok := pfAddConst(next); !ok || base != ssa.Value(rot.IV) || off != 1 {
+		return nil, "the value tested at the end of the iteration, " + p.describe(next) + ", is not the loop index incremented by one"
+	}
+	for i, pred := range L.Head.Preds {
+		if L.Body[pred] {
+			if pred != rot.Latch {
+				return nil, "more than one back edge"
+			}
+			if i >= len(rot.IV.Edges) || rot.IV.Edges[i] != next {
+				return nil, "the loop index is not advanced by the value the loop condition tests"
+			}
+			continue
+		}
+		if c, isC := constInt(rot.IV.Edges[i]); !isC || c != 0 {
+			return nil, "the loop index starts at " + p.describe(rot.IV.Edges[i]) + ", not at 0"
+		}
+	}
+	return &pfCountLoop{L: L, Idx: rot.IV, Bound: bound, Exit: rot.Exit, Rot: rot}, ""
+}
+
+// pfInitialOfCarried: v, the value flowing over the edge pred → exit of a bottom-tested loop where
+// pred is a guard in front of the loop (no iteration ran), is the initial value of a loop-carried
+// variable (a phi of the head) that holds `carried` after an iteration.
+func (p *Program) pfInitialOfCarried(L *Loop, pred *ssa.BasicBlock, v, carried ssa.Value) bool {
+	same := func(a, b ssa.Value) bool {
+		a, b = stripConv(a), stripConv(b)
+		if a == b {
+			return true
+		}
+		if isNilConst(a) && isNilConst(b) {
+			return types.Identical(a.Type(), b.Type())
+		}
+		return false
+	}
+	for i, hp := range L.Head.Preds {
+		if hp != pred {
+			continue
+		}
+		for _, in := range L.Head.Instrs {
+			ph, isPhi := in.(*ssa.Phi)
+			if !isPhi {
+				break
+			}
+			if i >= len(ph.Edges) || !same(ph.Edges[i], v) {
+				continue
+			}
+			for j, bp := range L.Head.Preds {
+				if !L.Body[bp] || j >= len(ph.Edges) {
+					continue
+				}
+				for _, pv := range p.possibleValues(ph.Edges[j]) {
+					if pv == carried {
+						return true
+					}
+				}
+			}
+		}
+	}
+	return false
 }
 
 // pfParamOfType returns the first parameter of fn satisfying pred.
